@@ -157,8 +157,9 @@ def graphFinderTail (m2 : XZ) (xinv : Adj) (hpos : List Nat) (rank : Int) : Exce
       matMul n xinv (transpose m2.x) i j == decide (i = j)) then .error .assertion
   else .ok { adj := adj, hpos := hpos, zdiag := zdiag, rank := rank }
 
-/-- `_graph_finder(x_matrix, z_matrix, get_ops_data=True)` -/
-def graphFinder (m0 : XZ) : Except Err GraphFinderOut :=
+/-- `_graph_finder(x_matrix, z_matrix, get_ops_data=True)` with the inverse computation as a parameter:
+    `inv n A = none` stands for a failed determinant assertion, `some M` for the matrix `(det · inv % 2).astype(int)` -/
+def graphFinderWith (inv : Nat → Adj → Option Adj) (m0 : XZ) : Except Err GraphFinderOut :=
   if m0.n = 0 then .error .runtime else
   let (m1, rank0) := m0.norm.rowReduction
   -- `if x_mat[rank][n_column - 1] == 0: rank = rank - 1` (Python index `-1` is the last row); `rank` is not used afterwards
@@ -167,9 +168,15 @@ def graphFinder (m0 : XZ) : Except Err GraphFinderOut :=
   let hpos := positionFinder m0.n m1.x
   let m2 := (m1.hadamardTransform hpos).norm
   -- `assert det(x_mat).astype(int) % 2 != 0` and `x_inv = (det(x_mat.T) * inv(x_mat.T) % 2).astype(int)`
-  match gf2Inv m0.n (transpose m2.x) with
+  match inv m0.n (transpose m2.x) with
   | none => .error .assertion
-  | some xinv => graphFinderTail m2 xinv.f hpos rank
+  | some xinv => graphFinderTail m2 xinv hpos rank
+
+/-- the exact inverse as a plain matrix -/
+def gf2InvF (n : Nat) (A : Adj) : Option Adj := (gf2Inv n A).map fun m => m.f
+
+/-- `_graph_finder` with exact GF(2) arithmetic -/
+def graphFinder (m0 : XZ) : Except Err GraphFinderOut := graphFinderWith gf2InvF m0
 
 /-! ### `_phase_correction`, `state_to_graph`, `stabilizer_to_graph` -/
 
@@ -196,16 +203,19 @@ def phaseCorrection (t : STab) (gt : STab) (gates : List Gate) : Except Err (Lis
           .ok (((List.range n).filter fun i =>
             parityTo n fun k => xinv.f i k && xor (tab2.row k).r (newTab.row k).r).map Gate.Z)
 
-/-- `state_to_graph(state)` for a stabilizer tableau (a `CliffordTableau` is first reduced by `to_stabilizer`):
-    the graph and the gate list `H…, P_dag…, Z…` -/
-def stateToGraph (t : STab) : Except Err (BMat × List Gate) :=
-  match graphFinder (XZ.ofSTab t) with
+/-- `state_to_graph(state)` for a stabilizer tableau (a `CliffordTableau` is first reduced by `to_stabilizer`), with the inverse
+    computation of `_graph_finder` as a parameter: the graph and the gate list `H…, P_dag…, Z…` -/
+def stateToGraphWith (inv : Nat → Adj → Option Adj) (t : STab) : Except Err (BMat × List Gate) :=
+  match graphFinderWith inv (XZ.ofSTab t) with
   | .error e => .error e
   | .ok g =>
     let gates := lcGates g.hpos g.zdiag
     match phaseCorrection t (graphSTab t.n g.adj.f) gates with
     | .error e => .error e
     | .ok zs => .ok (g.adj, gates ++ zs)
+
+/-- `state_to_graph(state)` with exact GF(2) arithmetic -/
+def stateToGraph (t : STab) : Except Err (BMat × List Gate) := stateToGraphWith gf2InvF t
 
 /-- `_same_stabilizer_state(stab1, stab2)` -/
 def sameStabilizerState (a b : STab) : Except Err Bool :=
